@@ -9,7 +9,7 @@ RULE = ("seeded random continua up to 2x9, 3x9, 4x5, 5x3 units x pooled dissimil
         "incl. 0; delta_empty != 1) x both MIP back-ends, each compared with an unpruned exact optimum (bitmask "
         "dynamic programme <= 14 units, HiGHS MILP, assignment algorithm for 2 annotators); thorough tier adds the "
         "complete grids '2 annotators x <=3 units' (6 segments x 2 labels) and '3 annotators x <=2 units' (6 "
-        "segments); a corpus of continua whose programme has an integrality gap (LP relaxation below the integer optimum, so "
+        "segments); a block with delta_empty 1e-4 .. 1e-6 (compared in units of delta_empty); a corpus of continua whose programme has an integrality gap (LP relaxation below the integer optimum, so "
         "that the solvers must branch; mined off-line, judged at run time); 10 % of the random cases are editing sessions (compute, edit the same continuum object, compute again); "
         "non-trivial = at least 2 units and 2 non-empty annotators; distinct by SHA-1 of the case")
 ASSUMPTIONS = [
@@ -88,13 +88,13 @@ def _check(ctx, case, continuum):
     _, sizes, _, tensor = ac.oracle_tables(cspec, dissim)
     recomputed = ac.alignment_cost_from_tensor(cspec, alignment, tensor, sizes)
     detail = {"reported": got, "recomputed_from_units": recomputed, "oracle": opt["methods"], "solvers": solvers}
-    if not oracles.close(recomputed, ref):
+    if not oracles.close_at_scale(recomputed, ref, dissim.delta_empty):
         if recomputed > ref:
             ctx.fail("not-minimal", detail, monitor="M-OPT")
         else:
             _oracle_doubt(ctx, f"returned partition costs less than the oracle optimum: {detail}")
         return
-    if not oracles.close(got, ref):
+    if not oracles.close_at_scale(got, ref, dissim.delta_empty):
         ctx.fail("reported-disorder-not-the-minimum", detail, monitor="M-OPT")
 
 
@@ -123,6 +123,15 @@ def run(ctx):
         case = dict(hc, backend="cbc" if i % 2 == 0 else "glpk", want="auto")
         ctx.begin_case(case)
         ctx.observe("family", "integrality-gap")
+        check_case(ctx, case)
+    # very small delta_empty: every cost is of the order of 1e-5 .. 1e-6, below the absolute tolerances MIP solvers work with
+    for i in range(ctx.scale(12, 200)):
+        case = ac.gen_oracle_case(ctx, [{"kind": "positional", "delta": d_} for d_ in (1e-5, 3e-6, 3e-5)] +
+                                  [{"kind": "combined", "alpha": 1.0, "beta": 1.0, "delta": d_, "pos": None, "cat": None} for d_ in (1e-5, 1e-6, 1e-4)],
+                                  families=["dense", "longoverlap", "grid", "generic"])
+        ctx.begin_case(case)
+        ctx.observe("family", "small-delta_empty")
+        ctx.observe("delta", case["dissim"]["delta"])
         check_case(ctx, case)
     n_cases = ctx.scale(250, 6000)
     for _ in range(n_cases):
